@@ -11,11 +11,27 @@ on any statement without hash collisions (`C07_iff_eqv` transfers them to every 
   C07_error_kind_full / _partial / _counterexample  every rejection is the grammar error     (findings C07-F1, C07-F3)
   C07_schema_full / _partial / _counterexample    `.schema` = names and kinds of the outputs  (findings C07-F1, C07-F2)
   C07_tables_*                                    kind lattice / expression-class tables re-extracted from the live code
+
+What the hypotheses exclude, exactly (second half of the file):
+
+  C07_denotation_*            `normal` is no restriction: every script is constructed like its denotation `r.norm`
+  C07_iff_denotation / C07_stored_denotation / C07_error_kind_denotation / C07_schema_denotation
+                              the partial theorems for every script whose denotation is `tame`
+  C07_tame_exact              `¬ tame` ⟺ a table with a repeated field name (no such dsl.Schema exists) ∨ a consulted
+                              source with an un-named output (F1) ∨ with a repeated name (F2) ∨ with an un-kinded output
+  C07_unkinded_unresolvable   the fourth region lies inside `¬ resolvable`
+  C07_resolvable_exact        `¬ resolvable` ⟺ an element naming no output of its origin (F3) ∨ an ill-typed call
+  C07_outside_findings        outside F1, F2, F3 and the two unreachable regions all three statements hold
+  C07_*_refuses_* / C07_cumulative_any_depth      aggregates and windows are refused at any depth of nesting
+  C07_rows_irrelevant         `rows` never influences the verdict
 -/
 import ForML.Model.Grammar
 import ForML.Generated.C07Tables
 import ForML.Lemmas.C07Main
 import ForML.Lemmas.C07ErrKind
+import ForML.Lemmas.C07Norm
+import ForML.Lemmas.C07Regions
+import ForML.Lemmas.C07Depth
 
 namespace ForML.Dsl
 
@@ -250,5 +266,206 @@ def refNeg (n : Int) : Source := .ref (q tStudent [sId] (.some (bin .gt sId (.li
 example : (construct implEqv (q (refNeg (-1)) [.elem (refNeg (-2)) "id"])).isOk = true ∧
     (construct structEqv (q (refNeg (-1)) [.elem (refNeg (-2)) "id"])).isOk = false ∧
     ¬ WellFormed (q (refNeg (-1)) [.elem (refNeg (-2)) "id"]) := by decide
+
+/-! ## what the hypotheses exclude, exactly -/
+
+/-! ### `normal`: covered by the denotation -/
+
+/-- a `normal` script is its own denotation … -/
+theorem C07_denotation_of_normal (r : RawStmt) (hn : Source.normal r = true) : Source.norm r = r :=
+  Source.norm_of_normal r hn
+
+/-- … every denotation is `normal` … -/
+theorem C07_denotation_normal (r : RawStmt) : Source.normal (Source.norm r) = true := Source.normal_norm r
+
+/-- … and a script is constructed exactly like its denotation (same statement stored, same exception) -/
+theorem C07_denotation_construct (r : RawStmt) (ht : Source.tame (Source.norm r) = true) :
+    construct structEqv r = construct structEqv (Source.norm r) := Source.construct_norm r ht
+
+/-- `C07_iff_partial` without `normal`: for EVERY script whose denotation lies where schemas are defined -/
+theorem C07_iff_denotation (r : RawStmt) (ht : Source.tame (Source.norm r) = true) :
+    (construct structEqv r).isOk = true ↔ WellFormed (Source.norm r) := by
+  rw [C07_denotation_construct r ht]
+  exact C07_iff_partial _ (Source.normal_norm r) ht
+
+/-- what is stored is the denotation -/
+theorem C07_stored_denotation (r : RawStmt) (ht : Source.tame (Source.norm r) = true) (s : Stmt)
+    (h : construct structEqv r = Except.ok s) : s = Source.norm r := by
+  rw [C07_denotation_construct r ht] at h
+  exact C07_stored _ (Source.normal_norm r) ht s h
+
+theorem C07_error_kind_denotation (r : RawStmt) (ht : Source.tame (Source.norm r) = true)
+    (hr : Source.resolvable (Source.norm r) = true) (e : CtorErr) (h : construct structEqv r = Except.error e) :
+    e = CtorErr.grammar := by
+  rw [C07_denotation_construct r ht] at h
+  exact C07_error_kind_partial _ (Source.normal_norm r) ht hr e h
+
+theorem C07_schema_denotation (r : RawStmt) (ht : Source.tame (Source.norm r) = true)
+    (hp : Source.plain (Source.norm r) = true) (s : Stmt) (h : construct structEqv r = Except.ok s) :
+    ∃ S, s.schemaOf = Except.ok S ∧ s.schemaS = some S := by
+  rw [C07_denotation_construct r ht] at h
+  exact C07_schema_partial _ (Source.normal_norm r) ht hp s h
+
+-- a reference of a reference, an alias of an alias, a set of two bare tables: not `normal`, covered all the same
+def notNormal : Source :=
+  q (.ref (.ref tStudent "a") "b") [.alias (.alias (.elem (.ref tStudent "b") "id") "x") "y"]
+example : Source.normal notNormal = false ∧ Source.tame (Source.norm notNormal) = true ∧ WellFormed (Source.norm notNormal) ∧
+    Source.norm notNormal = q (.ref tStudent "b") [.alias (.elem (.ref tStudent "b") "id") "y"] ∧
+    construct structEqv notNormal = Except.ok (Source.norm notNormal) := by decide
+example : Source.normal (.set tSchool tSchool .union) = false ∧
+    construct structEqv (.set tSchool tSchool .union) = Except.ok (.set (q tSchool []) (q tSchool []) .union) ∧
+    Source.norm (.set tSchool tSchool .union) = .set (q tSchool []) (q tSchool []) .union := by decide
+
+/-! ### `tame` and `resolvable`: the regions -/
+
+/-- `tame` fails in exactly four regions -/
+theorem C07_tame_exact (r : RawStmt) :
+    Source.tame r = false ↔
+      (Source.dupTable r = true ∨ Source.unnamedAt r = true ∨ Source.duplicateAt r = true ∨ Source.unkindedAt r = true) :=
+  Source.tame_false_iff r
+
+/-- the fourth of which lies inside `¬ resolvable` -/
+theorem C07_unkinded_unresolvable (r : RawStmt) (h : Source.unkindedAt r = true) : Source.resolvable r = false := by
+  cases hr : Source.resolvable r with
+  | false => rfl
+  | true =>
+    rw [Source.unkindedAt_of_resolvable r hr] at h
+    cases h
+
+/-- `resolvable` fails in exactly two regions -/
+theorem C07_resolvable_exact (r : RawStmt) :
+    Source.resolvable r = false ↔ (Source.unknownElement r = true ∨ Source.illTypedCall r = true) := by
+  rw [← Bool.not_eq_true, Source.resolvable_iff_regions]
+  cases Source.unknownElement r <;> cases Source.illTypedCall r <;> simp
+
+/-- Outside the three findings — un-named outputs where a schema is read (F1), repeated output names there (F2), an
+element naming no output of its origin (F3) — and outside the two regions no use of the public API leads into (a table
+with a repeated field name; a call with the wrong number of operands), every script is constructed exactly when its
+denotation is well-formed, what is stored is the denotation, and every rejection is the grammar error. -/
+theorem C07_outside_findings (r : RawStmt)
+    (h1 : Source.unnamedAt (Source.norm r) = false) (h2 : Source.duplicateAt (Source.norm r) = false)
+    (h3 : Source.unknownElement (Source.norm r) = false)
+    (u1 : Source.dupTable (Source.norm r) = false) (u2 : Source.illTypedCall (Source.norm r) = false) :
+    construct structEqv r =
+      if Source.wf (Source.norm r) then Except.ok (Source.norm r) else Except.error CtorErr.grammar := by
+  have hr : Source.resolvable (Source.norm r) = true := (Source.resolvable_iff_regions _).mpr ⟨h3, u2⟩
+  have ht : Source.tame (Source.norm r) = true := by
+    cases h : Source.tame (Source.norm r) with
+    | true => rfl
+    | false =>
+      rcases (C07_tame_exact _).mp h with h' | h' | h' | h'
+      · rw [u1] at h'; cases h'
+      · rw [h1] at h'; cases h'
+      · rw [h2] at h'; cases h'
+      · rw [Source.unkindedAt_of_resolvable _ hr] at h'; cases h'
+  rw [C07_denotation_construct r ht]
+  exact C07_construct_eq _ (Source.normal_norm r) ht hr
+
+/-- … and, if the statement's own outputs are named and distinct, `.schema` lists their names and kinds in order -/
+theorem C07_schema_outside_findings (r : RawStmt)
+    (h1 : Source.unnamedAt (Source.norm r) = false) (h2 : Source.duplicateAt (Source.norm r) = false)
+    (h3 : Source.unknownElement (Source.norm r) = false)
+    (u1 : Source.dupTable (Source.norm r) = false) (u2 : Source.illTypedCall (Source.norm r) = false)
+    (hp : Source.plainN (Source.norm r) = true) (hw : WellFormed (Source.norm r)) :
+    ∃ S, (Source.norm r).schemaOf = Except.ok S ∧ (Source.norm r).schemaS = some S := by
+  have hr : Source.resolvable (Source.norm r) = true := (Source.resolvable_iff_regions _).mpr ⟨h3, u2⟩
+  have ht : Source.tame (Source.norm r) = true := by
+    cases h : Source.tame (Source.norm r) with
+    | true => rfl
+    | false =>
+      rcases (C07_tame_exact _).mp h with h' | h' | h' | h'
+      · rw [u1] at h'; cases h'
+      · rw [h1] at h'; cases h'
+      · rw [h2] at h'; cases h'
+      · rw [Source.unkindedAt_of_resolvable _ hr] at h'; cases h'
+  have hpl : Source.plain (Source.norm r) = true := by
+    rw [Source.plain_eq, hp, Bool.true_and]
+    exact Source.kinded_of_resolvable _ hr
+  exact C07_schema_partial _ (Source.normal_norm r) ht hpl _ (C07_conforming_never_raises _ (Source.normal_norm r) ht hw)
+
+-- the regions are inhabited by the witnesses of the three findings and by nothing else of them
+example : Source.unnamedAt unnamedSet = true ∧ Source.duplicateAt unnamedSet = false ∧ Source.unknownElement unnamedSet = false ∧
+    Source.dupTable unnamedSet = false ∧ Source.illTypedCall unnamedSet = false := by decide
+example : Source.duplicateAt collapsedSet = true ∧ Source.unnamedAt collapsedSet = false ∧ Source.unknownElement collapsedSet = false ∧
+    Source.dupTable collapsedSet = false ∧ Source.illTypedCall collapsedSet = false := by decide
+example : Source.unknownElement unknownCompared = true ∧ Source.unnamedAt unknownCompared = false ∧
+    Source.duplicateAt unknownCompared = false ∧ Source.dupTable unknownCompared = false ∧
+    Source.illTypedCall unknownCompared = false ∧ Source.tame unknownCompared = true := by decide
+-- an un-named output / equal names that no schema lookup meets are outside the regions: the theorems apply
+example : Source.unnamedAt unnamedQuery = false ∧ Source.tame unnamedQuery = true ∧
+    Source.duplicateAt (q equalNamesJoin [sId]) = false ∧ Source.tame (q equalNamesJoin [sId]) = true := by decide
+-- the two unreachable regions
+example : Source.dupTable (.table "D" [("x", .integer), ("x", .string)]) = true ∧
+    Source.illTypedCall (q tStudent [.expr .add (fs [sId])]) = true ∧ Source.illTypedCall (q tStudent [bin .add (.expr .rownumber .nil) lit1]) = true ∧
+    Source.unkindedAt (.ref (q tStudent [.alias (.expr .add (fs [])) "x"]) "r") = true := by decide
+-- everything of `everything` is outside all regions
+example : Source.unnamedAt everything = false ∧ Source.duplicateAt everything = false ∧ Source.unknownElement everything = false ∧
+    Source.dupTable everything = false ∧ Source.illTypedCall everything = false ∧ Source.norm everything = everything := by decide
+
+/-! ### aggregates and windows at any depth -/
+
+/-- an aggregate or a window below any number of aliases, casts and operands stays visible -/
+theorem C07_cumulative_any_depth (c : Ctx) (f : Feature) :
+    (f.hasAggregate = true → (c.plug f).hasAggregate = true) ∧ (f.hasWindow = true → (c.plug f).hasWindow = true) :=
+  ⟨hasAggregate_plug c f, hasWindow_plug c f⟩
+
+/-- no aggregate and no window anywhere in a where-condition -/
+theorem C07_where_refuses_cumulative (c : Ctx) (f : Feature) (h : f.isCumulative = true) (s : Source) (sel grp : Features)
+    (post : FeatureOpt) (ord : Orderings) (rows : Option Rows) :
+    ¬ WellFormed (.query s sel (.some (c.plug f)) grp post ord rows) := by
+  unfold WellFormed
+  rw [not_wf_where c f h]
+  exact Bool.false_ne_true
+
+/-- … in a grouping term -/
+theorem C07_grouping_refuses_cumulative (c : Ctx) (f : Feature) (h : f.isCumulative = true) (s : Source) (sel : Features)
+    (pre : FeatureOpt) (before after : List Feature) (post : FeatureOpt) (ord : Orderings) (rows : Option Rows) :
+    ¬ WellFormed (.query s sel pre (Features.ofList (before ++ c.plug f :: after)) post ord rows) := by
+  unfold WellFormed
+  rw [not_wf_grouping c f h]
+  exact Bool.false_ne_true
+
+/-- … in a join condition -/
+theorem C07_join_refuses_cumulative (c : Ctx) (f : Feature) (h : f.isCumulative = true) (l r : Source) (k : JoinKind) :
+    ¬ WellFormed (.join l r k (.some (c.plug f))) := by
+  unfold WellFormed
+  rw [not_wf_join c f h]
+  exact Bool.false_ne_true
+
+/-- no window anywhere in a having-condition (an aggregate is fine there) -/
+theorem C07_having_refuses_window (c : Ctx) (f : Feature) (h : f.isWindow = true) (s : Source) (sel : Features)
+    (pre : FeatureOpt) (grp : Features) (ord : Orderings) (rows : Option Rows) :
+    ¬ WellFormed (.query s sel pre grp (.some (c.plug f)) ord rows) := by
+  unfold WellFormed
+  rw [not_wf_having c f h]
+  exact Bool.false_ne_true
+
+-- depth 4: `(abs(sum(score) + 1) * 2 > 1).alias…` — with `C07_iff_partial`, the constructors refuse it
+def deep : Ctx := .arg .gt [] (.arg .mul [] (.arg .abs [] (.arg .add [] .hole [lit1]) []) [lit1]) [lit1]
+example : deep.depth = 4 ∧ construct structEqv (q tStudent [sId] (.some (deep.plug (un .sum sScore)))) = Except.error CtorErr.grammar ∧
+    construct structEqv (q tStudent [sId] .none [] (.some (deep.plug (un .sum sScore)))) =
+      Except.ok (q tStudent [sId] .none [] (.some (deep.plug (un .sum sScore)))) ∧
+    construct structEqv (q tStudent [sId] .none [] (.some (deep.plug (.window (un .sum sScore) (fs [sId]) .nil)))) =
+      Except.error CtorErr.grammar := by decide
+-- aggregates nest freely inside one another and inside windows (no rule forbids it)
+example : WellFormed (q tStudent [un .sum (un .sum sScore), .window (un .sum (.window (.expr .rownumber .nil) (fs [sId]) .nil)) (fs [sName]) .nil]) := by decide
+
+/-! ### `rows` -/
+
+/-- the row limit takes no part in any check -/
+theorem C07_rows_irrelevant (eqv : Feature → Feature → Bool) (s : Source) (sel : Features) (pre : FeatureOpt) (grp : Features)
+    (post : FeatureOpt) (ord : Orderings) (rows rows' : Option Rows) :
+    (construct eqv (.query s sel pre grp post ord rows)).isOk = (construct eqv (.query s sel pre grp post ord rows')).isOk ∧
+    Source.wf (.query s sel pre grp post ord rows) = Source.wf (.query s sel pre grp post ord rows') := by
+  refine ⟨?_, rfl⟩
+  simp only [construct, Source.construct]
+  cases Source.construct eqv s <;> try rfl
+  cases Features.construct eqv sel <;> try rfl
+  cases FeatureOpt.construct eqv pre <;> try rfl
+  cases Features.construct eqv grp <;> try rfl
+  cases FeatureOpt.construct eqv post <;> try rfl
+  cases Orderings.construct eqv ord <;> try rfl
+  simp only [bind, Except.bind]
+  cases checkQuery eqv _ _ _ _ _ _ <;> rfl
 
 end ForML.Dsl
